@@ -57,22 +57,23 @@ BuiltinAlias(name) ==
        [] name = "Nonce" -> TEither(Point, u256)
        [] name = "TokenAmount1" -> TEither(Point, u64)
 
+UNDEF == [k |-> "undef"]
 RECURSIVE Resolve(_, _)
 \* Resolve(ty, aliases): replace alias names by their definition.  aliases is a
-\* function name -> resolved type.  Result: a resolved type or "undef".
+\* function name -> resolved type.  Result: a resolved type or UNDEF.
 Resolve(ty, aliases) ==
-  CASE ty.k = "alias" -> IF ty.name \in DOMAIN aliases THEN aliases[ty.name] ELSE "undef"
+  CASE ty.k = "alias" -> IF ty.name \in DOMAIN aliases THEN aliases[ty.name] ELSE UNDEF
     [] ty.k = "builtin" -> BuiltinAlias(ty.name)
     [] ty.k \in {"bool", "u"} -> ty
     [] ty.k = "tup" ->
          LET rs == [i \in 1..Len(ty.es) |-> Resolve(ty.es[i], aliases)]
-         IN IF \E i \in 1..Len(rs) : rs[i] = "undef" THEN "undef" ELSE TTup(rs)
-    [] ty.k = "arr" -> LET r == Resolve(ty.e, aliases) IN IF r = "undef" THEN "undef" ELSE TArr(r, ty.n)
-    [] ty.k = "list" -> LET r == Resolve(ty.e, aliases) IN IF r = "undef" THEN "undef" ELSE TList(r, ty.b)
-    [] ty.k = "opt" -> LET r == Resolve(ty.e, aliases) IN IF r = "undef" THEN "undef" ELSE TOpt(r)
+         IN IF \E i \in 1..Len(rs) : rs[i].k = "undef" THEN UNDEF ELSE TTup(rs)
+    [] ty.k = "arr" -> LET r == Resolve(ty.e, aliases) IN IF r.k = "undef" THEN UNDEF ELSE TArr(r, ty.n)
+    [] ty.k = "list" -> LET r == Resolve(ty.e, aliases) IN IF r.k = "undef" THEN UNDEF ELSE TList(r, ty.b)
+    [] ty.k = "opt" -> LET r == Resolve(ty.e, aliases) IN IF r.k = "undef" THEN UNDEF ELSE TOpt(r)
     [] ty.k = "either" ->
          LET l == Resolve(ty.l, aliases) r == Resolve(ty.r, aliases)
-         IN IF l = "undef" \/ r = "undef" THEN "undef" ELSE TEither(l, r)
+         IN IF l.k = "undef" \/ r.k = "undef" THEN UNDEF ELSE TEither(l, r)
 
 \* ---- structural (Simplicity) types ---------------------------------------
 SUnit == [k |-> "1"]
@@ -130,7 +131,7 @@ CastOK(s, t) == Struct(s) = Struct(t)
 
 \* ---- typed values ---------------------------------------------------------
 \* Values do not carry their type; the type is supplied by the context.
-VBool(b) == [k |-> "vbool", v |-> b]
+VBool(b) == [k |-> "vbool", bv |-> b]
 VU(bits) == [k |-> "vu", bits |-> bits]
 VTup(es) == [k |-> "vtup", es |-> es]
 VUnit == VTup(<<>>)
@@ -162,7 +163,7 @@ ListToStruct(es, te, b) ==
        ELSE SVP(SVL(SVU), ListToStruct(es, te, h))
 
 ToStruct(v, ty) ==
-  CASE ty.k = "bool" -> IF v.v THEN SVR(SVU) ELSE SVL(SVU)
+  CASE ty.k = "bool" -> IF v.bv THEN SVR(SVU) ELSE SVL(SVU)
     [] ty.k = "u" -> WordToStruct(v.bits)
     [] ty.k = "tup" -> BalFold([i \in 1..Len(ty.es) |-> ToStruct(v.es[i], ty.es[i])], "val")
     [] ty.k = "arr" -> BalFold([i \in 1..ty.n |-> ToStruct(v.es[i], ty.e)], "val")
